@@ -1,0 +1,15 @@
+//go:build !verif
+
+package board
+
+import "github.com/paulsonkoly/chess-3/move"
+
+const (
+	VerifMake = iota + 1
+	VerifUndo
+	VerifNullMake
+	VerifNullUndo
+)
+
+// verifOp is a no-op unless built with the verif tag.
+func (b *Board) verifOp(int, move.Move) {}
